@@ -124,6 +124,20 @@ var targets = map[string]target{
 	"delegation.FromIPLD":   {"node", func(cs Case) { delegation.FromIPLD(cs.Node.Node()) }, func(cs Case) bool { return cs.Node.K == "list" }},
 	"invocation.FromIPLD":   {"node", func(cs Case) { invocation.FromIPLD(cs.Node.Node()) }, func(cs Case) bool { return cs.Node.K == "list" }},
 	"policy.FromIPLD":       {"node", func(cs Case) { policy.FromIPLD(cs.Node.Node()) }, func(cs Case) bool { return cs.Node.K == "list" }},
+	// a policy that a decoder lets through is then USED: matched against a few argument values (the decode-then-match
+	// sequence every validator runs)
+	"policy.FromIPLD+Match": {"node", func(cs Case) {
+		p, err := policy.FromIPLD(cs.Node.Node())
+		if err != nil {
+			return
+		}
+		for _, d := range matchPanel {
+			p.Match(d)
+			p.PartialMatch(d)
+		}
+		_ = p.String()
+		_, _ = p.ToIPLD()
+	}, func(cs Case) bool { return cs.Node.K == "list" }},
 	"Policy.Match+PartialMatch": {"polnode", func(cs Case) {
 		p, err := cs.Pol.Build(true)
 		if err != nil {
@@ -407,7 +421,7 @@ func init() {
 		}
 	}
 	stringTargets = []string{"policy.FromDagJson", "selector.Parse", "command.Parse", "did.Parse+PubKey"}
-	nodeTargets = []string{"token.Inspect+FindTag", "delegation.FromIPLD", "invocation.FromIPLD", "policy.FromIPLD"}
+	nodeTargets = []string{"token.Inspect+FindTag", "delegation.FromIPLD", "invocation.FromIPLD", "policy.FromIPLD", "policy.FromIPLD+Match"}
 }
 
 var hostileCfg = val.Cfg{Depth: 3, MaxLen: 4, Hostile: true, NonFinite: true, Keys: []string{"a", "b", "", "x", "é", "/", "iss", "h"}}
@@ -833,6 +847,8 @@ func TestLikePairs(t *testing.T) {
 	P.ClassN("fam:like-pairs", n)
 	P.Sample(map[string]any{"enumeration": "all like pattern/subject pairs over {a,b,*,\\}", "max_len": maxLen, "pairs": n})
 }
+
+var matchPanel = []ipld.Node{val.Map().Node(), val.Map(val.E("a", val.Int(1)), val.E("l", val.List(val.Int(1), val.Str("x"), val.Map(val.E("a", val.Int(2)))))).Node(), val.List(val.Int(1)).Node(), val.Str("x").Node(), val.Null().Node()}
 
 var selAtoms = []string{".", "a", "foo", `["`, `"]`, `"`, `\"`, `\\`, `\`, "[", "]", "?", ":", "0", "1", "-1", "-", "é", " ", "[]", `["a"]`, `["a\"b"]`, `["\""]`, "[0]", "[1:]", "[:-1]", "..", `\"]`, `["\`, "'", "\x00", "\n", "9223372036854775808", "[-", "]?", "?.", `"."`, `"["`}
 
@@ -1707,4 +1723,39 @@ func TestHostileTexts(t *testing.T) {
 		}
 	}
 	P.SetExtra("hostile_text_cases", n)
+}
+
+
+// TestOperatorSpellings: well-formed statements of every kind whose OPERATOR is spelled otherwise - upper case, title
+// case, mixed, with blanks, with a look-alike letter, doubled - read from a document and, if the decoder lets them
+// through, matched. An operator the library recognises it must also be able to evaluate; one it does not recognise is an
+// error at decoding, not a crash at matching.
+func TestOperatorSpellings(t *testing.T) {
+	ok := val.List(val.Str("=="), val.Str(".a"), val.Int(1))
+	n := 0
+	for _, op := range []string{"and", "or", "not", "all", "any", "like", "==", "!=", "<", "<=", ">", ">="} {
+		var spellings []string
+		spellings = append(spellings, op, strings.ToUpper(op), strings.ToUpper(op[:1])+op[1:], op+" ", " "+op, op+op, op+"\x00", strings.Replace(op, "a", "\u0430", 1), strings.Replace(op, "o", "0", 1), op[:1]+strings.ToUpper(op[1:]))
+		for _, sp := range spellings {
+			var stmts []val.V
+			switch op {
+			case "and", "or":
+				stmts = []val.V{val.List(val.Str(sp), val.List(ok, ok)), val.List(val.Str(sp), val.List()), val.List(val.Str("not"), val.List(val.Str(sp), val.List(ok)))}
+			case "not":
+				stmts = []val.V{val.List(val.Str(sp), ok)}
+			case "all", "any":
+				stmts = []val.V{val.List(val.Str(sp), val.Str(".l"), ok), val.List(val.Str("not"), val.List(val.Str(sp), val.Str(".l"), ok))}
+			case "like":
+				stmts = []val.V{val.List(val.Str(sp), val.Str(".a"), val.Str("*"))}
+			default:
+				stmts = []val.V{val.List(val.Str(sp), val.Str(".a"), val.Int(1)), val.List(val.Str("and"), val.List(val.List(val.Str(sp), val.Str(".a"), val.Int(1))))}
+			}
+			for _, st := range stmts {
+				pnode := val.List(st)
+				nodeProp.One(t, Case{Target: "policy.FromIPLD+Match", Fam: "operator-spelling", Node: &pnode})
+				n++
+			}
+		}
+	}
+	P.SetExtra("operator_spelling_cases", n)
 }
